@@ -4,6 +4,11 @@
   c04_streams.py encode            -> per input line "<seed> <k> <initial sequence_number>": one JSON line with k messages of random
                                       classes built and serialised by ONE FusionEngineEncoder (random source ids; length-inferred
                                       payloads get random data): [{type, version, source, payload hex, out hex}]
+  c04_streams.py badpayloads       -> per input line (class names, or ALL) one JSON line: for each of these registered classes, payloads on which cls().unpack (handed exactly the message
+                                      bytes, as the decoder does) raises, grouped by exception TYPE, a few representatives each; candidates:
+                                      every length 0..size+8 (truncated / zero- and 0xFF-extended default payload), all-0x00 / all-0xFF /
+                                      random garbage of several lengths, the default payload with each byte set to 0xFF, 0x00, 0x80 in
+                                      turn (unknown tags / sub-types / counts / lengths in containers, invalid UTF-8 in strings)
   c04_streams.py impl              -> line protocol runner around FusionEngineDecoder (see below)
 
 impl input line:   <S|V> <maxp> <maxe|-> <rb> <ro> <opts> <stream-hex|-> <chunkings>
@@ -514,6 +519,65 @@ def classes_main():
                       'max_expected': MessageHeader._MAX_EXPECTED_SIZE_BYTES}))
 
 
+def bad_payloads_of(cls, t, enc):
+    """payloads on which cls().unpack raises, by exception type (count and three representatives: shortest, median, longest)"""
+    import random
+    r = random.Random(int(t) * 7 + 1)
+    try:
+        base = bytes(enc.encode_message(cls()))[24:]
+    except Exception:
+        base = bytes(16)
+    n = len(base)
+    cands = []
+    for L in range(0, n + 9):
+        cands.append(base[:L] if L <= n else base + bytes(L - n))
+        if L > n:
+            cands.append(base + b'\xff' * (L - n))
+    for L in sorted({0, 1, 2, 3, 4, 7, 8, 12, 16, 24, 32, 40, 64, 100, 200, n, n + 1, 2 * n + 3}):
+        cands += [bytes(L), b'\xff' * L, bytes(r.randrange(256) for _ in range(L)), bytes(r.randrange(256) for _ in range(L))]
+    for i in range(n):
+        for v in (0xff, 0x00, 0x80):
+            if base[i] != v:
+                cands.append(base[:i] + bytes([v]) + base[i + 1:])
+    for i in range(0, max(0, n - 3), 1):
+        cands.append(base[:i] + b'\xff\xff\xff\xff' + base[i + 4:])
+    # tag / sub-type / count sweeps: every value of each of the first 6 bytes and selected values of the next 6, on the
+    # default payload and on zero- and 0x01-filled bodies (containers select a polymorphic sub-type from the leading fields)
+    some = sorted({0, 1, 2, 3, 4, 5, 8, 16, 0x7f, 0x80, 0xc0, 0xfe, 0xff} | {r.randrange(256) for _ in range(12)})
+    for body in [base] + [bytes(L) for L in (16, 40, 64)] + [b'\x01' * 40]:
+        for i in range(min(len(body), 12)):
+            for v in (range(256) if i < 6 else some):
+                cands.append(body[:i] + bytes([v]) + body[i + 1:])
+    by_exc, seen, tried = {}, set(), 0
+    hdr = bytes(24)
+    for pl in cands:
+        if pl in seen:
+            continue
+        seen.add(pl); tried += 1
+        try:
+            cls().unpack(buffer=hdr + pl, offset=24)
+        except Exception as e:
+            by_exc.setdefault(type(e).__name__, []).append(pl)
+        except BaseException as e:
+            by_exc.setdefault('BaseException:' + type(e).__name__, []).append(pl)
+    rec = {'type': int(t), 'tried': tried, 'failing': sum(len(v) for v in by_exc.values()), 'by_exception': {}}
+    for k, v in by_exc.items():
+        v.sort(key=len)
+        picks = [v[0], v[len(v) // 2], v[-1]]
+        rec['by_exception'][k] = {'count': len(v), 'payloads': [x.hex() for x in dict.fromkeys(picks)]}
+    return rec
+
+
+def badpayloads_main():
+    _imports()
+    enc = FusionEngineEncoder()
+    by_name = {cls.__name__: (t, cls) for t, cls in message_type_to_class.items()}
+    for line in sys.stdin:
+        names = sorted(by_name) if line.strip() == 'ALL' else line.split()
+        print(json.dumps({name: bad_payloads_of(by_name[name][1], by_name[name][0], enc) for name in names}))
+    sys.stdout.flush()
+
+
 def encode_main():
     import random
     _imports()
@@ -550,4 +614,4 @@ def encode_main():
 
 
 if __name__ == '__main__':
-    {'impl': impl_main, 'classes': classes_main, 'encode': encode_main}[sys.argv[1]]()
+    {'impl': impl_main, 'classes': classes_main, 'encode': encode_main, 'badpayloads': badpayloads_main}[sys.argv[1]]()
